@@ -25,12 +25,13 @@ theorem C11_identity (G : GenLayer) (hG : ∀ pgn d m, G.decode pgn d = some (.o
     o.src = i.src ∧ o.iso = lookupSrc (step G cfg st i).1.sources i.src := by
   exact identity_of_genok G cfg st i o hG h
 
-/-- the identity stored by a claim is decoded from that claim (or is the stored one with the same NAME) -/
+/-- the identity stored by a claim is decoded from that claim (or is the stored one with the same NAME);
+the NAME is the first 64 bits of the payload -/
 theorem C11_claim_identity (G : GenLayer) (cfg : Config) (st : State) (i : Input) (m : Msg)
     (hp : i.pgn = isoClaimPgn) (hk : G.isFast isoClaimPgn = .single)
     (hd : G.decode i.pgn (leNat i.data) = some (.ok m)) (hm : m.pgn = isoClaimPgn) (n : IsoName)
-    (hn : mkIsoName m (leNat i.data) = some n) :
-    ∃ n', lookupSrc (step G cfg st i).1.sources i.src = some n' ∧ n'.name = leNat i.data ∧
+    (hn : mkIsoName m (leNat i.data % 18446744073709551616) = some n) :
+    ∃ n', lookupSrc (step G cfg st i).1.sources i.src = some n' ∧ n'.name = leNat i.data % 18446744073709551616 ∧
       (n' = n ∨ lookupSrc st.sources i.src = some n') :=
   step_claim_identity G cfg st i m hp hk hd hm n hn
 
